@@ -123,6 +123,30 @@ def eval_open_restriction(args):
     return bad
 
 
+CHILD_TYPES = {'ItemT': 'complex', 'SmallItem': 'complex', 'BigItem': 'complex', 'OtherT': 'complex', 'xs:int': 'simple', 'xs:short': 'simple', 'xs:long': 'simple', 'xs:string': 'simple', 'Code': 'simple'}
+CHILD_DOCS = ['<item><id>1</id></item>', '<item><id>1</id><extra>x</extra></item>', '<item><id>x</id></item>', '<item/>', '<item><id>1</id><id>2</id></item>', '<item>5</item>', '<item>70000</item>',
+              '<item>99999999999</item>', '<item>abc</item>', '<item>ab</item>', '<item><other/></item>']
+
+
+def eval_child_types(args):
+    """a restriction that redeclares a child element with another type: if the builder accepts it, no content of the restricted type is rejected by the base type"""
+    base_t, der_t, ver = args
+    import xmlschema
+    xsd = f'''<xs:schema xmlns:xs="http://www.w3.org/2001/XMLSchema">
+ <xs:complexType name="ItemT"><xs:sequence><xs:element name="id" type="xs:int" maxOccurs="2"/></xs:sequence></xs:complexType>
+ <xs:complexType name="SmallItem"><xs:complexContent><xs:restriction base="ItemT"><xs:sequence><xs:element name="id" type="xs:int"/></xs:sequence></xs:restriction></xs:complexContent></xs:complexType>
+ <xs:complexType name="BigItem"><xs:complexContent><xs:extension base="ItemT"><xs:sequence><xs:element name="extra" type="xs:string" minOccurs="0"/></xs:sequence></xs:extension></xs:complexContent></xs:complexType>
+ <xs:complexType name="OtherT"><xs:sequence><xs:element name="other" minOccurs="0"/></xs:sequence></xs:complexType>
+ <xs:simpleType name="Code"><xs:restriction base="xs:string"><xs:length value="3"/></xs:restriction></xs:simpleType>
+ <xs:complexType name="B"><xs:sequence><xs:element name="item" type="{base_t}"/></xs:sequence></xs:complexType>
+ <xs:complexType name="D"><xs:complexContent><xs:restriction base="B"><xs:sequence><xs:element name="item" type="{der_t}"/></xs:sequence></xs:restriction></xs:complexContent></xs:complexType>
+ <xs:element name="b" type="B"/><xs:element name="d" type="D"/></xs:schema>'''
+    try: s = _cls(ver)(xsd)
+    except xmlschema.XMLSchemaException: return None
+    bad = [c for c in CHILD_DOCS if s.is_valid(f'<d>{c}</d>') and not s.is_valid(f'<b>{c}</b>')]
+    return bad
+
+
 def open_jobs(): return [(d, b, r, m) for d in DOC_OC for b in OC for r in OC for m in ('same', 'empty')]
 
 
@@ -168,6 +192,11 @@ def run(tier, seed, open_findings):
                           required='instances(derived) subset of instances(base)', baseline=listed.get('|'.join(j))))
     out.append(result('C14.typed_particles_and_wildcards', f'{len(tjobs)} (group kind, base particles in order, derived particles, processContents, class) over a lax/skip wildcard and two typed optional elements x {len(TYPED_DOCS)} contents',
                       len(tjobs), tfail, exhaustive=True, known=({TK: tknown} if tknown else {}), distinct=sum(1 for r in tres if r is not None), samples=[dict(model='all', base='AEF', derived='A', process_contents='lax')]))
+    cjobs = [(b, d, ver) for b in CHILD_TYPES for d in CHILD_TYPES for ver in ('1.0', '1.1') if CHILD_TYPES[b] == CHILD_TYPES[d] or 'xs:string' in (b, d)]
+    cres = pmap(eval_child_types, cjobs, chunk=4)
+    cfail = [dict(case=dict(child_types=True, base=j[0], derived=j[1], version=j[2]), observed=f'the restricted type accepts {r[:3]} that the base type rejects', required='instances(derived) subset of instances(base)') for r, j in zip(cres, cjobs) if r]
+    out.append(result('C14.redeclared_child_types', f'{len(cjobs)} (type of the child in the base, type of the redeclared child, class) over same / restriction-derived / extension-derived / unrelated complex and simple types x {len(CHILD_DOCS)} contents',
+                      len(cjobs), cfail, exhaustive=True, distinct=sum(1 for r in cres if r is not None), samples=[dict(base='ItemT', derived='BigItem')]))
     ojobs = open_jobs(); ores = pmap(eval_open_restriction, ojobs, chunk=2)
     ofail = [dict(case=dict(open=True, default=j[0], base=j[1], derived=j[2], derived_model=j[3]), observed=f'the restricted type accepts the children {r[:5]} (f = foo, e = extra, x = foreign) that the base type rejects',
                   required='instances(derived) subset of instances(base)') for r, j in zip(ores, ojobs) if r]
@@ -177,6 +206,8 @@ def run(tier, seed, open_findings):
 
 
 def replay(check_name, case):
+    if case.get('child_types'):
+        r = eval_child_types((case['base'], case['derived'], case['version'])); return dict(ok=not r, observed=r, required='derived admits a subset')
     if case.get('open'):
         r = eval_open_restriction((case['default'], case['base'], case['derived'], case['derived_model'])); return dict(ok=not r, observed=r, required='derived admits a subset')
     if case.get('typed'):
